@@ -364,6 +364,9 @@ def _run_check(mod, modname, pid, tier, seed, nproc, t0, write_evidence) -> int:
 
     # ---- main search
     specs = mod.plan(tier, seed)
+    stride = int(os.environ.get("VPBT_SPEC_STRIDE", "1"))
+    if stride > 1:  # reduced run (mutation analysis only): every n-th shard
+        specs = specs[::stride]
     results = run_pool(modname, specs, nproc)
     merged = merge(results)
     excluded = 0
